@@ -135,6 +135,79 @@ namespace xv
             else
                 out.push_back(mk("V x counts x lanes", { V, C }, ML));
         }
+        else if (key == "rnd")
+        {
+            // rounding-sensitive values: every k/2 and its neighbours, windows around the magnitudes
+            // where the add-and-subtract / conversion tricks change behaviour
+            std::vector<uint64_t> v;
+            auto addv = [&](double d)
+            {
+                if (t == XV_F32)
+                {
+                    uint64_t b = to_bits<float>((float)d);
+                    for (int dd = -1; dd <= 1; ++dd)
+                    {
+                        v.push_back(b + dd);
+                        v.push_back((b + dd) ^ 0x80000000ull);
+                    }
+                }
+                else
+                {
+                    uint64_t b = to_bits<double>(d);
+                    for (int dd = -1; dd <= 1; ++dd)
+                    {
+                        v.push_back(b + dd);
+                        v.push_back((b + dd) ^ 0x8000000000000000ull);
+                    }
+                }
+            };
+            const int K = T.thorough ? (1 << 16) : (1 << 13);
+            for (int k = 1; k <= K; ++k)
+                addv(k * 0.5);
+            const int W = 64;
+            std::vector<int> centers = { 22, 23, 24, 25, 30, 31, 32, 33 };
+            if (t == XV_F64)
+                for (int c : { 51, 52, 53, 54, 62, 63, 64 })
+                    centers.push_back(c);
+            else
+                for (int c : { 62, 63, 64 })
+                    centers.push_back(c);
+            for (int c : centers)
+            {
+                if (t == XV_F32)
+                    window<float>(v, std::ldexp(1.0f, c), W);
+                else
+                    window<double>(v, std::ldexp(1.0, c), W);
+            }
+            if (t == XV_F32)
+                for (float c : { 0.5f, 1.0f, 1.5f, 2.5f, 0.49999997f })
+                    window<float>(v, c, 4);
+            else
+                for (double c : { 0.5, 1.0, 1.5, 2.5, 0.49999999999999994 })
+                    window<double>(v, c, 4);
+            dedup_keep_order(v);
+            out.push_back(mk("k/2 +- ulp, windows at 2^22..2^64", { Alpha::of(v).odd() }, 1));
+            auto more = make_spaces("un", sig, T);
+            for (auto& m : more)
+                out.push_back(m);
+        }
+        else if (key == "ldexp")
+        {
+            // (value, exponent): value lattice x every exponent of a range wider than the format's
+            Alpha V = value_alpha(t, T, true);
+            int R = t == XV_F32 ? 300 : 2200;
+            std::vector<uint64_t> e;
+            for (int k = 0; k <= R; ++k)
+            {
+                e.push_back((uint64_t)(int64_t)k);
+                if (k)
+                    e.push_back((uint64_t)(int64_t)-k);
+            }
+            const uint64_t M = t == XV_F32 ? 0xFFFFFFFFull : ~0ull;
+            for (auto& x : e)
+                x &= M;
+            out.push_back(mk("Ls x exponents", { V, Alpha::of(e).odd() }, 1));
+        }
         else if (key == "mask_un")
         {
             out.push_back(mk("{0,1} x lanes", { bool_alpha() }, ML));
@@ -198,10 +271,11 @@ namespace xv
                     fprintf(stderr, "signature mismatch for %s\n", name.c_str());
                     exit(2);
                 }
-            auto spaces = make_spaces(spec->space, sig, T);
+            const std::string& skey = (!is_int_type(sig.elem) && !spec->fp_space.empty()) ? spec->fp_space : spec->space;
+            auto spaces = make_spaces(skey, sig, T);
             for (size_t si = 0; si < spaces.size(); ++si)
             {
-                std::string gk = spec->space + "|" + std::to_string(sig.elem) + "|" + std::to_string(si) + "|" + std::to_string(sig.nin);
+                std::string gk = skey + "|" + std::to_string(sig.elem) + "|" + std::to_string(si) + "|" + std::to_string(sig.nin);
                 for (int k = 0; k < sig.nin; ++k)
                     gk += "," + std::to_string(sig.in_t[k]);
                 gk += "|" + std::to_string(sig.nout) + "," + std::to_string(sig.out_t[0]) + "," + std::to_string(sig.out_t[1]);
